@@ -155,6 +155,10 @@ func (r *c05run) waitFor(d time.Duration, pred func() bool) bool {
 }
 
 func c05exec(c *h.Ctx, cs *h.Case) {
+	if len(cs.Ops) > 0 && strings.HasPrefix(cs.Ops[0], "c05 cstart ") {
+		c05conn(c, cs)
+		return
+	}
 	fixMu.Lock() // fix.Prepare is global
 	defer fixMu.Unlock()
 	f := c04get()
@@ -163,7 +167,15 @@ func c05exec(c *h.Ctx, cs *h.Case) {
 	r := &c05run{insts: map[int]*c05inst{}, byTok: map[string]int{}}
 	r.cond = sync.NewCond(&r.mu)
 	r.fail = func(sig, msg string) { cs.Fail(sig, msg) }
+	// three instances, or as many as the ops name (class script-many: dozens of instances on one server)
 	nInst := 3
+	for _, op := range cs.Ops {
+		if tk := strings.Fields(op); len(tk) >= 3 && (tk[1] == "accept" || tk[1] == "self" || tk[1] == "exit" || tk[1] == "close") {
+			if i, err := strconv.Atoi(tk[2]); err == nil && i >= nInst && i < 4096 {
+				nInst = i + 1
+			}
+		}
+	}
 	for i := 0; i < nInst; i++ {
 		tok := fix.TokenFor(ct.t, ct.target, uuid.New())
 		r.insts[i] = &c05inst{to: tok, gate: make(chan struct{}, 1000)}
@@ -284,7 +296,21 @@ func c05exec(c *h.Ctx, cs *h.Case) {
 			if expectEnter {
 				if !r.waitFor(4*time.Second, func() bool { return in.entered >= want }) {
 					cs.Impl = append(cs.Impl, "stuck")
-					cs.Fail("lost-wakeup", fmt.Sprintf("instance %d is idle with message %d queued and never starts its handler", i, m))
+					r.mu.Lock()
+					others := 0
+					for j, o := range r.insts {
+						if j != i && o.entered > o.exited {
+							others++
+						}
+					}
+					r.mu.Unlock()
+					if others >= 8 {
+						// with a few blocked handlers elsewhere this is a lost wake-up of the instance itself; when it
+						// only shows with many of them, the blocked handlers hold something the server's other instances need
+						cs.Fail("delayed-by-other-instances", fmt.Sprintf("instance %d is idle with message %d queued and never starts its handler while %d other instances of the server sit in handlers that do not return", i, m, others))
+					} else {
+						cs.Fail("lost-wakeup", fmt.Sprintf("instance %d is idle with message %d queued and never starts its handler", i, m))
+					}
 					return
 				}
 			} else {
@@ -424,6 +450,30 @@ func c05gen(c *h.Ctx, yield func(*h.Case)) {
 		ops = append(ops, "c05 accept 1 1000", "c05 exit 1", "c05 accept 2 1001", "c05 exit 0", "c05 exit 0")
 		yield(&h.Case{Class: "script-backlog", Ops: ops})
 	}
+	// many instances on one server, every one of them inside a handler that does not return: one more
+	// instance must still get its messages handled (a blocked handler may not use up anything that the
+	// server's other instances need)
+	for n := 0; n < c.Pick(3, 12); n++ {
+		N := 33 + r.Intn(c.Pick(38, 170))
+		if n == 0 {
+			N = 33
+		}
+		var ops []string
+		for i := 0; i < N; i++ {
+			ops = append(ops, fmt.Sprintf("c05 accept %d %d", i, i+1))
+			if r.Intn(4) == 0 {
+				ops = append(ops, fmt.Sprintf("c05 accept %d %d", i, 5000+i)) // and a backlog behind some of them
+			}
+		}
+		ops = append(ops, fmt.Sprintf("c05 accept %d 1000", N), fmt.Sprintf("c05 exit %d", N), fmt.Sprintf("c05 accept %d 1001", N),
+			fmt.Sprintf("c05 accept %d 1002", N), fmt.Sprintf("c05 exit %d", N), fmt.Sprintf("c05 exit %d", N))
+		for j := 0; j < 6; j++ {
+			ops = append(ops, fmt.Sprintf("c05 exit %d", r.Intn(N)))
+		}
+		ops = append(ops, fmt.Sprintf("c05 accept %d 1003", N), fmt.Sprintf("c05 exit %d", N))
+		c.Count("class=script-many")
+		yield(&h.Case{Class: "script-many", Ops: ops})
+	}
 	for n := 0; n < c.Pick(120, 2000); n++ {
 		cs := &h.Case{Class: "script"}
 		m := 0
@@ -469,6 +519,7 @@ func c05gen(c *h.Ctx, yield func(*h.Case)) {
 		c.Count("class=script")
 		yield(cs)
 	}
+	c05connGen(c, yield)
 	for n := 0; n < c.Pick(30, 300); n++ {
 		feeders := 1 + r.Intn(8)
 		per := 5 + r.Intn(40)
